@@ -35,6 +35,7 @@ type Meta struct {
 	Users       []string          `json:"Users"`
 	PeerPorts   []int             `json:"PeerPorts"`
 	InboundMTU  int               `json:"InboundMTU"`
+	QuotaDenied []string          `json:"QuotaDenied"`
 	Lens        map[string]int    `json:"Lens"`
 	Extra       map[string]string `json:"Extra"`
 	Sys         string            `json:"Sys"` // which real system the spec is bound to ("" = relay server)
@@ -84,9 +85,38 @@ func (w *World) Check(e Edge, obs []Obs) []Mismatch {
 	ms = append(ms, CompareState(ts, pr, actorOf(e.A), name == "Advance")...)
 	if w.Meta.Extra["ledger"] == "yes" {
 		ms = append(ms, w.checkLedger(e, ts)...)
+	} else if len(ms) == 0 && len(ts) > 0 {
+		ms = append(ms, w.checkSockets(ts)...)
 	}
 
 	return ms
+}
+
+// checkSockets: the relay sockets the generator handed out and that are still open are exactly those of
+// the live allocations (a probe socket of GetRandomEvenPort, for one, must not stay open).
+func (w *World) checkSockets(ts []any) []Mismatch {
+	alloc, _ := ts[0].(map[string]any)
+	live := 0
+	for _, v := range alloc {
+		if r, _ := v.(map[string]any); r["live"] == true {
+			live++
+		}
+	}
+	open := 0
+	w.gen.mu.Lock()
+	for _, c := range w.gen.Conns {
+		select {
+		case <-c.closed:
+		default:
+			open++
+		}
+	}
+	w.gen.mu.Unlock()
+	if open != live {
+		return []Mismatch{{"resources", fmt.Sprintf("%d relay sockets are open, %d allocations are live", open, live)}}
+	}
+
+	return nil
 }
 
 func evKey(kind, key string) string {
@@ -326,11 +356,15 @@ func (g *memGen) AllocatePacketConn(c turn.AllocateListenerConfig) (net.PacketCo
 	}
 	port := c.RequestedPort
 	if port == 0 {
-		// automatic ports are multiples of 4, so that the port next to an even one (which a
-		// RESERVATION-TOKEN stands for) is never handed to an unrelated allocation by accident
+		// automatic ports alternate odd (8k+5) and even (8k+8): an EVEN-PORT request has to probe past an
+		// odd one, and the port next to an even one (8k+9, which a RESERVATION-TOKEN stands for) is never
+		// handed to an unrelated allocation by accident
 		for {
 			g.next++
 			port = 50000 + 4*g.next
+			if g.next%2 == 1 {
+				port++
+			}
 			if !g.w.Net.Bound(&net.UDPAddr{IP: ip, Port: port}) {
 				break
 			}
@@ -475,6 +509,13 @@ func NewWorld(meta Meta, seed int64) (*World, error) {
 		StrictAddressFamily: meta.Strict,
 		EventHandler:        w.eventHandler(),
 		InboundMTU:          meta.InboundMTU,
+	}
+	if len(meta.QuotaDenied) > 0 {
+		over := map[string]bool{}
+		for _, u := range meta.QuotaDenied {
+			over[u] = true
+		}
+		cfg.QuotaHandler = func(username, _ string, _ net.Addr) bool { return !over[username] }
 	}
 	useDefaults := w.Var.Defaults && meta.DefaultLife == 600 && meta.PermTO == 300 && meta.ChanTO == 600
 	if !useDefaults {
@@ -1330,6 +1371,8 @@ func (w *World) badCred(c, m, k string) ([]byte, error) {
 		nonce = ""
 	case "garbageNonce":
 		nonce = "!!**--~~"
+	case "longNonce": // a genuine nonce with more digits appended (longer than any nonce this server mints)
+		nonce += "ZZZZZZZZ"
 	case "truncMI", "flipMI", "flipBody", "ok":
 	default:
 		return nil, fmt.Errorf("unknown credential kind %q", k)
